@@ -18,6 +18,7 @@ func genC02(t *rapid.T) DynCase {
 	// DNS based backends: a server-template whose size is the number of endpoints, never updated by runtime commands
 	p.GlobalKeys = append(p.GlobalKeys, annChoice{"dns-resolvers", []string{"kubernetes=10.0.0.2:53"}})
 	p.Ann = append(p.Ann, annChoice{"use-resolver", []string{"kubernetes"}})
+	p.UnlabeledPods = true
 	h := genDynHistory(t, p, dynKinds, sizeScale(8, 14))
 	c := DynCase{Hist: h}
 	kinds := []string{simhap.FaultRefuse, simhap.FaultDrop, simhap.FaultDropApp, simhap.FaultNotOK}
